@@ -186,40 +186,99 @@ Definition cyc_self : table_def :=
     [mkCol "id" (TSimple Integer) false None None None None None None; mkCol "x" (TSimple Integer) true None None None None None None]
     [CPrimaryKey false ["id"]; CForeignKey None ["x"] "a" ["x"] None None].
 
-Lemma resolve_cycle_step f rt rc :
-  (rt = "a" /\ rc = "x") \/ (rt = "b" /\ rc = "y") ->
-  resolve_fk_target (S f) [cyc_a; cyc_b] rt [rc]
-  = resolve_fk_target f [cyc_a; cyc_b] (if String.eqb rt "a" then "b" else "a") [if String.eqb rt "a" then "y" else "x"].
-Proof. intros [[-> ->]|[-> ->]]; reflexivity. Qed.
+(* the (table, column) nodes that carry a single-column FK *)
+Definition fk_nodes (s : list table_def) : list (string * string) :=
+  flat_map (fun tb => flat_map (fun f => match f with (([c], _), _) => [(t_name tb, c)] | _ => [] end) (fks_of tb)) s.
 
-Theorem resolve_fk_terminates_refuted :
-  (forall fuel, resolve_fk_target fuel [cyc_a; cyc_b] "b" ["y"] = None)
-  /\ (forall fuel, resolve_fk_target fuel [cyc_self] "a" ["x"] = None)
-  /\ members [cyc_a; cyc_b] cyc_a = Err XDiverge.
+Lemma node_eqb_eq a b : node_eqb a b = true <-> a = b.
 Proof.
-  split; [|split].
-  - assert (H : forall fuel, resolve_fk_target fuel [cyc_a; cyc_b] "b" ["y"] = None
-                          /\ resolve_fk_target fuel [cyc_a; cyc_b] "a" ["x"] = None).
-    { induction fuel as [|f [IH1 IH2]]; [split; reflexivity|]. split.
-      - rewrite resolve_cycle_step by (right; split; reflexivity). exact IH2.
-      - rewrite resolve_cycle_step by (left; split; reflexivity). exact IH1. }
-    intro fuel. apply H.
-  - induction fuel as [|f IH]; [reflexivity|]. exact IH.
-  - vm_compute. reflexivity.
+  destruct a as [a1 a2], b as [b1 b2]. unfold node_eqb. cbn [fst snd].
+  rewrite andb_true_iff, !String.eqb_eq. split; [intros [-> ->]; reflexivity | intro H; injection H as -> ->; auto].
+Qed.
+Lemma existsb_node n l : existsb (node_eqb n) l = true <-> In n l.
+Proof.
+  rewrite existsb_exists. split.
+  - intros [x [Hx E]]. apply node_eqb_eq in E. now subst.
+  - intro H. exists n. split; [exact H | now apply node_eqb_eq].
 Qed.
 
-(* more fuel never changes an answer: the fuelled model agrees with the unbounded recursion wherever that ends *)
-Theorem resolve_fk_fuel_mono s : forall fuel rt rcs r,
-  resolve_fk_target fuel s rt rcs = Some r -> forall fuel', (fuel <= fuel')%nat -> resolve_fk_target fuel' s rt rcs = Some r.
+Lemma fk_nodes_length s : (List.length (fk_nodes s) <= List.length (flat_map fks_of s))%nat.
 Proof.
-  induction fuel as [|f IH]; intros rt rcs r H fuel' L; [discriminate|].
-  destruct fuel' as [|f']; [lia|]. cbn [resolve_fk_target] in *.
+  unfold fk_nodes. induction s as [|tb s IH]; cbn [flat_map]; [apply Nat.le_refl|].
+  rewrite !app_length. apply Nat.add_le_mono; [|exact IH].
+  induction (fks_of tb) as [|f r IHr]; cbn [flat_map List.length]; [lia|].
+  rewrite app_length. destruct f as [[[|c [|c2 cs]] rt] rcs]; cbn [List.length]; lia.
+Qed.
+
+Lemma next_fk_node target rc nt ncs : next_fk target rc = Some (nt, ncs) ->
+  In (([rc], nt), ncs) (fks_of target).
+Proof.
+  unfold next_fk.
+  match goal with |- context [find ?p (fks_of target)] => destruct (find p (fks_of target)) as [[[cols rt] rcs]|] eqn:F end;
+    [|discriminate].
+  intro H. injection H as <- <-. apply find_some in F. destruct F as [Hin E].
+  destruct cols as [|c [|c2 cs]]; try discriminate. apply String.eqb_eq in E. now subst.
+Qed.
+
+Lemma step_node_in s rt rc target nt ncs :
+  find_table s rt = Some target -> next_fk target rc = Some (nt, ncs) -> In (rt, rc) (fk_nodes s).
+Proof.
+  intros F N. unfold find_table in F. apply find_some in F. destruct F as [Hin E]. apply String.eqb_eq in E.
+  apply next_fk_node in N. unfold fk_nodes. apply in_flat_map. exists target. split; [exact Hin|].
+  apply in_flat_map. exists (([rc], nt), ncs). split; [exact N|]. subst. now left.
+Qed.
+
+(* enough fuel: one unit per node not yet visited, plus one *)
+Lemma resolve_chain_total s : forall fuel rt rcs visited,
+  NoDup visited -> incl visited (fk_nodes s) ->
+  (List.length (fk_nodes s) - List.length visited < fuel)%nat ->
+  exists r, resolve_fk_chain fuel s rt rcs visited = Some r.
+Proof.
+  induction fuel as [|f IH]; intros rt rcs visited ND Inc L; [lia|].
+  cbn [resolve_fk_chain]. destruct s as [|t0 s0]; [eauto|].
+  destruct rcs as [|rc [|rc2 rest]]; eauto.
+  destruct (existsb (node_eqb (rt, rc)) visited) eqn:V; [eauto|].
+  destruct (find_table (t0 :: s0) rt) as [target|] eqn:F; [|eauto].
+  destruct (next_fk target rc) as [[nt ncs]|] eqn:N; [|eauto].
+  assert (Hnew : ~ In (rt, rc) visited).
+  { intro H. apply existsb_node in H. congruence. }
+  pose proof (step_node_in _ _ _ _ _ _ F N) as Hin.
+  assert (ND' : NoDup ((rt, rc) :: visited)) by now constructor.
+  assert (Inc' : incl ((rt, rc) :: visited) (fk_nodes (t0 :: s0))).
+  { intros x [<-|Hx]; [exact Hin | now apply Inc]. }
+  pose proof (NoDup_incl_length ND' Inc') as Len. cbn [List.length] in Len.
+  apply IH; [exact ND' | exact Inc' | cbn [List.length]; lia].
+Qed.
+
+(* the FK-chain walk always ends, cycles included (fix c0929b8) *)
+Theorem resolve_fk_terminates s rt rcs : exists r, resolve_fk_target (resolve_fuel s) s rt rcs = Some r.
+Proof.
+  unfold resolve_fk_target. apply resolve_chain_total; [constructor | intros x [] |].
+  unfold resolve_fuel. cbn [List.length]. pose proof (fk_nodes_length s). lia.
+Qed.
+
+(* more fuel never changes an answer *)
+Theorem resolve_fk_fuel_mono s : forall fuel rt rcs visited r,
+  resolve_fk_chain fuel s rt rcs visited = Some r ->
+  forall fuel', (fuel <= fuel')%nat -> resolve_fk_chain fuel' s rt rcs visited = Some r.
+Proof.
+  induction fuel as [|f IH]; intros rt rcs visited r H fuel' L; [discriminate|].
+  destruct fuel' as [|f']; [lia|]. cbn [resolve_fk_chain] in *.
   destruct s as [|t0 s0]; [exact H|].
   destruct rcs as [|rc [|rc2 rest]]; try exact H.
+  destruct (existsb (node_eqb (rt, rc)) visited); [exact H|].
   destruct (find_table (t0 :: s0) rt) as [target|]; [|exact H].
   destruct (next_fk target rc) as [[nt ncs]|]; [|exact H].
   apply IH with (fuel' := f'); [exact H | lia].
 Qed.
+
+(* the former D15 witnesses now resolve: the walk stops where the cycle closes *)
+Example resolve_cycles_fixed :
+  resolve_fk_target (resolve_fuel [cyc_a; cyc_b]) [cyc_a; cyc_b] "b" ["y"] = Some ("b", ["y"])
+  /\ resolve_fk_target (resolve_fuel [cyc_self]) [cyc_self] "a" ["x"] = Some ("a", ["x"])
+  /\ known_C16_fk_cycle [cyc_a; cyc_b] cyc_a = true
+  /\ exists d, members [cyc_a; cyc_b] cyc_a = Ok d.
+Proof. repeat split; try (vm_compute; reflexivity). eexists. vm_compute. reflexivity. Qed.
 
 (* ---------- refs_exist ---------- *)
 Lemma table_exists_In s name : table_exists s name = true <-> exists t, In t s /\ t_name t = name.
@@ -247,12 +306,13 @@ Proof.
   unfold fk_closed. rewrite forallb_forall. intros H Ht Hf. specialize (H tb Ht). rewrite forallb_forall in H. now apply H.
 Qed.
 
-Lemma resolve_exists s : fk_closed s = true -> forall fuel rt rcs r,
-  table_exists s rt = true -> resolve_fk_target fuel s rt rcs = Some r -> table_exists s (fst r) = true.
+Lemma resolve_exists s : fk_closed s = true -> forall fuel rt rcs visited r,
+  table_exists s rt = true -> resolve_fk_chain fuel s rt rcs visited = Some r -> table_exists s (fst r) = true.
 Proof.
-  intros C. induction fuel as [|f IH]; intros rt rcs r E H; [discriminate|].
-  cbn [resolve_fk_target] in H. destruct s as [|t0 s0]; [injection H as <-; exact E|].
+  intros C. induction fuel as [|f IH]; intros rt rcs visited r E H; [discriminate|].
+  cbn [resolve_fk_chain] in H. destruct s as [|t0 s0]; [injection H as <-; exact E|].
   destruct rcs as [|rc [|rc2 rest]]; try (injection H as <-; exact E).
+  destruct (existsb (node_eqb (rt, rc)) visited); [injection H as <-; exact E|].
   destruct (find_table (t0 :: s0) rt) as [target|] eqn:F; [|injection H as <-; exact E].
   destruct (next_fk target rc) as [[nt ncs]|] eqn:N; [|injection H as <-; exact E].
   apply find_table_In in F. destruct F as [Hin _]. apply next_fk_In in N. destruct N as [cols Hf].
@@ -335,7 +395,7 @@ Proof.
     unfold forward_resolved in FR. destruct (map_result_In _ _ _ FR _ Hfr) as [f [Hf Ff]].
     destruct (resolve_fk_target (resolve_fuel s) s (snd (fst f)) (snd f)) as [res|] eqn:RS; [|discriminate].
     injection Ff as <-. cbn [snd fst].
-    eapply resolve_exists; [exact C | | exact RS]. exact (fk_closed_spec _ _ _ C Ht Hf).
+    unfold resolve_fk_target in RS. eapply resolve_exists; [exact C | | exact RS]. exact (fk_closed_spec _ _ _ C Ht Hf).
   - (* reverse *)
     unfold reverse_infos in RV. destruct (concat_results_In _ _ RV _ Hr) as [part [Hp Hrp]].
     apply in_map_iff in Hp. destruct Hp as [other [Ho Hos]].
@@ -379,4 +439,39 @@ Proof.
     destruct (relation_members (resolve_fuel s) s t); [|discriminate].
     destruct (relation_members (resolve_fuel s') s' t); [|discriminate].
     injection H as <-. injection H' as <-. reflexivity.
+Qed.
+
+(* ---------- the declarations never run out of fuel ---------- *)
+Lemma map_result_err {A B} (f : A -> result B xerr) l e : map_result f l = Err e -> exists x, In x l /\ f x = Err e.
+Proof.
+  induction l as [|a r IH]; cbn [map_result]; [discriminate|].
+  destruct (f a) as [b|e1] eqn:Fa.
+  - destruct (map_result f r) as [ys|e2]; [discriminate|]. intro H. injection H as <-.
+    destruct (IH eq_refl) as [x [Hx Fx]]. exists x. split; [now right | exact Fx].
+  - intro H. injection H as <-. exists a. split; [now left | exact Fa].
+Qed.
+Lemma concat_results_err {A} (l : list (result (list A) xerr)) e : concat_results l = Err e -> In (Err e) l.
+Proof.
+  induction l as [|[x|e1] r IH]; cbn [concat_results]; [discriminate| |].
+  - destruct (concat_results r) as [ys|e2]; [discriminate|]. intro H. injection H as <-. right. now apply IH.
+  - intro H. injection H as <-. now left.
+Qed.
+
+Lemma relation_infos_no_diverge s t : relation_infos (resolve_fuel s) s t <> Err XDiverge.
+Proof.
+  unfold relation_infos, rbind. intro H.
+  destruct (forward_resolved (resolve_fuel s) t s) as [fwd|e] eqn:FR.
+  - set (ft := map (fun x => fst (snd x)) fwd) in *. set (at_ := ft ++ reverse_targets t s) in *.
+    destruct (map_result (forward_info t ft at_) fwd) as [fi|e] eqn:FI.
+    + destruct (reverse_infos t s at_) as [rv|e] eqn:RV; [discriminate|]. injection H as ->.
+      unfold reverse_infos in RV. apply concat_results_err in RV. apply in_map_iff in RV. destruct RV as [other [Ho _]].
+      destruct (String.eqb (t_name other) (t_name t)); [discriminate|].
+      destruct (is_junction_for t other); [discriminate|].
+      apply map_result_err in Ho. destruct Ho as [f [_ Ff]]. unfold direct_reverse_info in Ff.
+      destruct (generate_relation_enum_name (fst (fst f))); discriminate.
+    + injection H as ->. apply map_result_err in FI. destruct FI as [fr [_ Ff]]. unfold forward_info in Ff.
+      destruct fr as [[[columns rt] rcs] [resolved_table resolved_columns]].
+      destruct (_ || _)%bool; [|discriminate]. destruct (generate_relation_enum_name columns); discriminate.
+  - injection H as ->. unfold forward_resolved in FR. apply map_result_err in FR. destruct FR as [f [_ Ff]].
+    destruct (resolve_fk_terminates s (snd (fst f)) (snd f)) as [r Hr]. rewrite Hr in Ff. discriminate.
 Qed.
